@@ -1,6 +1,7 @@
 package main
 
 import (
+	"time"
 	"fmt"
 	"go/token"
 	"go/types"
@@ -79,6 +80,14 @@ func (e *Engine) panicPath(s *State, probe *probeRec, why string, pos token.Pos)
 	if e.mode == COMPLETE || (e.curC != nil && e.curC.Flags["nopanic"]) {
 		e.emit(s, "nopanic", "", BoolC(false), pos, why)
 	}
+	// refusal_implies E: a refusal is only allowed in entry states satisfying E
+	if e.curC != nil && len(e.curC.RefusalImp) > 0 && len(s.stack) > 0 {
+		root := s.stack[0]
+		c := &evalCtx{e: e, s: s, env: copyEnv(root.params), oldHeap: root.entryHeap, oldEnv: root.params, pkg: root.fn.Pkg.Pkg}
+		for _, cl := range e.curC.RefusalImp {
+			e.emit(s, "refusal", fmt.Sprintf("L%d", cl.Line), c.evalBool(cl.Expr), pos, "refusal_implies "+cl.Src+" ("+why+")")
+		}
+	}
 }
 
 func (e *Engine) gotoBlock(f *Frame, b *ssa.BasicBlock) {
@@ -146,12 +155,16 @@ func (e *Engine) enterBlock(s *State, f *Frame, probe *probeRec) bool {
 		return true
 	}
 	ord := li.ordinal[b]
+	inl := ""
+	if len(s.stack) > 1 {
+		inl = funcKey(f.fn) + "."
+	}
 	fromBack := f.prev != nil && body[f.prev]
 	if fromBack {
 		if probe == nil {
 			for k, cl := range invs {
 				t := e.evalInv(s, f, cl)
-				e.emit(s, "inv-step", fmt.Sprintf("loop%d#%d", ord, k), t, b.Instrs[0].Pos(), cl.Src)
+				e.emit(s, "inv-step", fmt.Sprintf("%sloop%d#%d", inl, ord, k), t, b.Instrs[0].Pos(), cl.Src)
 			}
 		}
 		return false
@@ -171,7 +184,7 @@ func (e *Engine) enterBlock(s *State, f *Frame, probe *probeRec) bool {
 	if probe == nil {
 		for k, cl := range invs {
 			t := e.evalInv(s, f, cl)
-			e.emit(s, "inv-init", fmt.Sprintf("loop%d#%d", ord, k), t, b.Instrs[0].Pos(), cl.Src)
+			e.emit(s, "inv-init", fmt.Sprintf("%sloop%d#%d", inl, ord, k), t, b.Instrs[0].Pos(), cl.Src)
 		}
 	}
 	// determine the set of heap locations written by the loop (fixpoint of probes)
@@ -1195,8 +1208,27 @@ func (e *Engine) rangeInit(s *State, f *Frame, x *ssa.Range) Value {
 		if content.Opaque {
 			panic(execError{"range over symbolic map"})
 		}
-		e.note("map iteration order: executed in insertion order; order-independence is established separately where a property needs it")
-		return VOpaque{Kind: "rangeiter", Data: &rangeIter{kind: "map", keys: content.Keys, vals: content.Vals}}
+		keys, vals := content.Keys, content.Vals
+		if mo, ok := s.stack[0].params["maporder"].(VInt); ok && mo.T.IsConst() && len(keys) > 0 {
+			// the contract enumerates iteration orders through the logical variable `maporder`:
+			// k < n: insertion order rotated by k (key k comes first, key k-1 last); k == n: reversed
+			k, n := int(mo.T.Val.Int64()), len(keys)
+			var nk, nv []Value
+			if k >= n {
+				for i := n - 1; i >= 0; i-- {
+					nk, nv = append(nk, keys[i]), append(nv, vals[i])
+				}
+			} else {
+				for i := 0; i < n; i++ {
+					nk, nv = append(nk, keys[(k+i)%n]), append(nv, vals[(k+i)%n])
+				}
+			}
+			keys, vals = nk, nv
+			e.note("map iteration order: enumerated by the contract (`cases maporder`): every rotation of the insertion order and its reversal in the thorough tier")
+		} else {
+			e.note("map iteration order: executed in insertion order; order-independence is established separately where a property needs it")
+		}
+		return VOpaque{Kind: "rangeiter", Data: &rangeIter{kind: "map", keys: keys, vals: vals}}
 	}
 	panic(execError{fmt.Sprintf("range over %T", v)})
 }
@@ -1316,8 +1348,33 @@ func (e *Engine) quickSat(hyps []*Term) bool {
 	defer os.RemoveAll(dir)
 	file := filepath.Join(dir, "q.smt2")
 	os.WriteFile(file, []byte(RenderVC(hyps, nil, false)), 0o644)
+	t0 := time.Now()
 	r := solveRace(file, 3, []string{"z3-new", "cvc5"})
+	if os.Getenv("GOVC_DEBUG") != "" {
+		fmt.Fprintf(os.Stderr, "quickSat %s %.2fs %d hyps\n", r.status, time.Since(t0).Seconds(), len(hyps))
+	}
 	return r.status != "unsat"
+}
+
+// quickSides: feasibility of pc∧c and of pc∧¬c, decided concurrently.  As soon as one side is refuted the
+// other is taken as feasible without waiting for its (often slow) model search.
+func (e *Engine) quickSides(pc []*Term, c *Term) (bool, bool) {
+	type ans struct {
+		side int
+		sat  bool
+	}
+	ch := make(chan ans, 2)
+	go func() { ch <- ans{0, e.quickSat(append(append([]*Term(nil), pc...), c))} }()
+	go func() { ch <- ans{1, e.quickSat(append(append([]*Term(nil), pc...), Not(c)))} }()
+	feas := [2]bool{true, true}
+	for i := 0; i < 2; i++ {
+		a := <-ch
+		feas[a.side] = a.sat
+		if !a.sat {
+			return feas[0], feas[1] // the other side keeps its default (feasible)
+		}
+	}
+	return feas[0], feas[1]
 }
 
 // shiftCount: Go panics on a negative shift count; counts above 256 are outside the pow2 table.
